@@ -41,6 +41,7 @@ type ChanInvDecl struct {
 	ChanExpr ast.Expr
 	Pred     *Clause
 	Open     bool
+	Seq      bool // used by one goroutine only: len(ch) is exact, select cases are enabled by fill level
 	Pkg      string
 }
 
@@ -49,6 +50,9 @@ func (d *ChanInvDecl) sig() string {
 	if d.Open {
 		o = "open:"
 	}
+	if d.Seq {
+		o += "seq:"
+	}
 	return o + strings.Join(strings.Fields(d.Pred.Src), " ")
 }
 
@@ -56,7 +60,7 @@ func (d *ChanInvDecl) predSig() string { return strings.Join(strings.Fields(d.Pr
 
 // satisfies: a channel carrying `d` meets a callee's need `need`.
 func (d *ChanInvDecl) satisfies(need *ChanInvDecl) bool {
-	return d.predSig() == need.predSig() && (d.Open || !need.Open)
+	return d.predSig() == need.predSig() && (d.Open || !need.Open) && (d.Seq || !need.Seq)
 }
 
 func parseChanInv(rest, file string, line int, pkg string) (*ChanInvDecl, error) {
@@ -76,9 +80,18 @@ func parseChanInv(rest, file string, line int, pkg string) (*ChanInvDecl, error)
 		return nil, fmt.Errorf("%s:%d: bad chaninv", file, line)
 	}
 	pred := strings.TrimSpace(m[2])
-	if strings.HasPrefix(pred, "open:") {
-		d.Open = true
-		pred = strings.TrimSpace(strings.TrimPrefix(pred, "open:"))
+	for {
+		if strings.HasPrefix(pred, "open:") {
+			d.Open = true
+			pred = strings.TrimSpace(strings.TrimPrefix(pred, "open:"))
+			continue
+		}
+		if strings.HasPrefix(pred, "seq:") {
+			d.Seq = true
+			pred = strings.TrimSpace(strings.TrimPrefix(pred, "seq:"))
+			continue
+		}
+		break
 	}
 	if pred == "" {
 		pred = "true"
@@ -89,6 +102,16 @@ func parseChanInv(rest, file string, line int, pkg string) (*ChanInvDecl, error)
 	}
 	d.Pred = c
 	return d, nil
+}
+
+// OnSend: for sends on the channel designated by ChanExpr inside this function:
+// Assert (label + predicate over elem and ghost state) is checked before the
+// send; Effect (g_x == expr over elem) is a ghost assignment performed after it.
+type OnSend struct {
+	ChanSrc  string
+	ChanExpr ast.Expr
+	Assert   *Clause
+	Effect   *Clause
 }
 
 // AtCall: an assertion over the caller's variables checked immediately
@@ -129,6 +152,8 @@ type Contract struct {
 	ChanInvs []*ChanInvDecl
 	CallsOnly []string // frame on callees: the function may only call functions whose name contains one of these
 	CallersOnly []string // frame on callers: the function may only be called from these functions
+	GhostInits []*Clause  // ghost-init g_x == expr : the activation starts its own ghost variables
+	OnSends  []*OnSend  // on-send / at-send clauses
 	AtCalls  []*AtCall // assertions checked at call sites inside the function
 	Semaphores []string // channel expressions (params / receiver fields) used as counting semaphores
 	Notes    []string
@@ -333,6 +358,38 @@ func loadPkgSpec(path, pkgPath string) (*PkgSpec, error) {
 			cur.CallsOnly = append(cur.CallsOnly, splitTopLevelCommas(rest)...)
 		case "callers-only":
 			cur.CallersOnly = append(cur.CallersOnly, splitTopLevelCommas(rest)...)
+		case "ghost-init":
+			c, err := parseClause(rest, path, ln.n)
+			if err != nil {
+				return nil, err
+			}
+			cur.GhostInits = append(cur.GhostInits, c)
+		case "at-send", "on-send":
+			// at-send <chan> [label] pred     |   on-send <chan> effect g_x == expr
+			i := strings.IndexAny(rest, " \t")
+			if i < 0 {
+				return nil, fmt.Errorf("%s:%d: bad %s", path, ln.n, word)
+			}
+			os := &OnSend{ChanSrc: rest[:i]}
+			ce, err := parser.ParseExpr(os.ChanSrc)
+			if err != nil {
+				return nil, fmt.Errorf("%s:%d: %s channel: %v", path, ln.n, word, err)
+			}
+			os.ChanExpr = ce
+			body := strings.TrimSpace(rest[i+1:])
+			if word == "on-send" {
+				body = strings.TrimSpace(strings.TrimPrefix(body, "effect"))
+			}
+			c, err := parseClause(body, path, ln.n)
+			if err != nil {
+				return nil, err
+			}
+			if word == "on-send" {
+				os.Effect = c
+			} else {
+				os.Assert = c
+			}
+			cur.OnSends = append(cur.OnSends, os)
 		case "semaphore":
 			cur.Semaphores = append(cur.Semaphores, rest)
 		case "at-call":
